@@ -31,7 +31,7 @@ THEOREMS = {
     'C09': [('ChessVerif.Props.C09', ['Chess.Props.C09_depths', 'Chess.Props.C09_searchmoves', 'Chess.Props.C09_depth_index'])],
     'C10': [('ChessVerif.Props.C10', ['Chess.Props.C10_history', 'Chess.Props.C10_history_cap', 'Chess.Props.C10_iteration_index', 'Chess.Props.C10_pins',
                                      'Chess.Props.C10_capacities', 'Chess.Props.C10_piece_lists'])],
-    'C12': [('ChessVerif.Props.C12', ['Chess.Props.C12_index', 'Chess.Props.C12_normalize'])],
+    'C12': [('ChessVerif.Props.C12', ['Chess.Props.C12_kpk', 'Chess.Props.C12_mirror', 'Chess.Props.C12_certificate', 'Chess.Props.C12_index', 'Chess.Props.C12_normalize'])],
     'C13': [('ChessVerif.Props.C13', ['Chess.Props.C13_geometry', 'Chess.Props.C13_normSq_mirror', 'Chess.Props.C13_combine_neg', 'Chess.Props.C13_phase_symm'])],
     'C14': [('ChessVerif.Props.C14', ['Chess.Props.C14_cache_transparent', 'Chess.Props.C14_cap_partial'])],
     'C15': [('ChessVerif.Props.C15', ['Chess.Props.C15_capture_quiet_full', 'Chess.Props.C15_quiet', 'Chess.Props.C15_castling', 'Chess.Props.C15_capture_rules'])],
@@ -424,8 +424,10 @@ def check_C12(ctx):
     ctx.cov['samples'] = [{'fen': fen_of(0, 0, 8, 16, 40), 'note': 'one of the enumerated positions'}]
     hunt_if_needed(ctx, ok, 'KPK classification', lambda: None)
     return V.finish(ctx, 'proof', thm('C12'),
-                    'theorems in Props/C12.lean about the table the build produced (certificate checking in the kernel: see DESIGN §6 C12 for which part is discharged); '
-                    'the correspondence is exhaustive over all legal KPK positions through the real evaluation path, against an independent rules-level solver',
+                    'C12_kpk (Props/C12.lean): for every legal KPK position the answer computed from the table the CURRENT build produced equals the least-fixpoint "pawn\'s side forces a win" of the rules '
+                    '(Spec/KPK.lean) — proved by a certificate (the table + committed rank data) whose local conditions the Lean kernel evaluates at all 393,216 (stm, wk, wp, bk) tuples (96 chunks, decide +kernel), '
+                    'lifted by induction on ranks (soundness) and on derivations (completeness); C12_mirror covers black pawns. The correspondence (model lookup = real evaluation path = independent retrograde solver) is '
+                    'exhaustive over all legal KPK positions',
                     checker_cmd('C12'))
 
 
@@ -1246,8 +1248,8 @@ def check_C10(ctx):
         if l.startswith(('pos ', 'do ')):
             main_line.append(l)
         i += 1
-    for nply in ((796, 799, 801) if ctx.tier == 'quick' else (780, 790, 794, 796, 797, 798, 799, 800, 801, 805, 1196, 1199, 1201)):
-        texts.append('\n'.join(main_line[:nply + 1]) + '\ngo depth 5\ngo depth 4 stopvisit 300\nstate\n')
+    for nply in ((796, 801) if ctx.tier == 'quick' else (780, 790, 794, 796, 797, 798, 799, 800, 801, 805, 1196, 1199, 1201)):
+        texts.append('\n'.join(main_line[:nply + 1]) + f'\ngo depth {4 if ctx.tier == "quick" else 5}\ngo depth 4 stopvisit 300\nstate\n')
     kk = '7k/8/8/8/8/8/8/K7 w - - 0 1'
     texts.append(f'pos {kk}\n' + ''.join(f'go depth {d}\n' for d in (39, 40, 41, 42, 60, 200, 1000, 2147483647)))
     texts.append('pos 8/8/4k3/p1p1p1p1/P1P1P1P1/8/4K3/8 w - - 0 1\ngo depth 40\ngo depth 41\n')
